@@ -134,6 +134,13 @@ def rand_program(rng):
         prev_plain = False
         while len(body) < blen:
             r = rng.random()
+            # what stands in front, line continuations aside: directly behind a string literal no usage, directive or formal
+            # (which may be bound to a usage) is placed - that is D2 territory, and with a parenthesised group behind a
+            # formal-less usage the token-level deviation is not exact
+            sig = [t for t in body if t["k"] != "cont"]
+            after_str = bool(sig) and sig[-1]["k"] in ("str", "bqs")
+            if after_str and r < 0.3:
+                r = 0.45          # a plain word instead
             if r < 0.3 and nform:
                 body.append(pp.bt("id", "f%d" % rng.randrange(nform))); prev_plain = False
             elif r < 0.5:
@@ -149,12 +156,12 @@ def rand_program(rng):
                 prev_plain = True
             elif r < 0.75:
                 body.append(pp.bt("str", '"f0 %s"' % rng.choice(WORDS))); prev_plain = False
-            elif r < 0.85 and macros and not (body and body[-1]["k"] in ("str", "bqs")):
+            elif r < 0.85 and macros and not after_str:
                 # (never directly after a string literal: known finding D2, decided by PpLex/C06)
                 body.append(rand_use_bt(rng, rng.choice(macros), 1, macros)); prev_plain = False
             elif r < 0.88:
                 body.append(pp.bt("cont")); prev_plain = False
-            elif r < 0.885 and not (body and body[-1]["k"] in ("str", "bqs")):
+            elif r < 0.885 and not after_str:
                 # an object-like `define inside a body: it ends its line, so a continuation follows
                 body.append({"k": "def", "n": "M%d" % rng.randrange(4), "a": [pp.bt("lit", "in%d" % rng.randint(0, 9))], "g": False, "s": ""})
                 body.append(pp.bt("cont")); body.append(pp.bt("lit", rng.choice(WORDS))); prev_plain = True
@@ -175,7 +182,7 @@ def rand_program(rng):
                 body.append({"k": "cond", "n": "M%d" % rng.randrange(4), "s": rng.choice(["ifdef", "ifndef"]), "g": False,
                              "a": [{"k": "grp", "n": "", "a": branch(), "g": False, "s": ""}, {"k": "grp", "n": "", "a": branch(), "g": False, "s": ""}]})
                 prev_plain = False
-            elif r < 0.9 and not (body and body[-1]["k"] in ("str", "bqs")):
+            elif r < 0.9 and not after_str:
                 # a directive inside a body is executed when the expansion is rescanned
                 body.append(pp.bt("undef", "M%d" % rng.randrange(4)) if rng.random() < 0.8 else pp.bt("undefall")); prev_plain = False
             elif r < 0.95 and nform:
